@@ -313,7 +313,17 @@ pub fn run<P: Prop + 'static>(p: Arc<P>, cfg: Config) -> i32 {
 
     // ---- replay mode
     if let Some(path) = &cfg.replay {
-        let case = match load_case::<P>(path) {
+        let from_tape = std::fs::read_to_string(path).ok().and_then(|t| serde_json::from_str::<Value>(&t).ok()).and_then(|v| {
+            let g = v.get("generated_from")?;
+            if let Some(tape) = g.get("tape") {
+                let words: Vec<u32> = serde_json::from_value(tape.clone()).ok()?;
+                let mut t = Tape::new(&words);
+                return Some(p.generate(&mut t));
+            }
+            let idx = g.get("fixed_case_index")?.as_u64()? as usize;
+            p.fixed_cases(cfg.tier).0.into_iter().nth(idx)
+        });
+        let case = match from_tape.map(Ok).unwrap_or_else(|| load_case::<P>(path)) {
             Ok(c) => c,
             Err(e) => {
                 eprintln!("cannot load replay: {}", e);
@@ -438,7 +448,7 @@ pub fn run<P: Prop + 'static>(p: Arc<P>, cfg: Config) -> i32 {
                         let _ = std::fs::create_dir_all(&dir);
                         let path = dir.join(format!("hang-shard{}.json", i));
                         let v = cur[i].lock().unwrap().clone().unwrap_or(Value::Null);
-                        let _ = std::fs::write(&path, serde_json::to_string_pretty(&json!({"property": idc, "case": v, "message": "watchdog: case ran > 120 s"})).unwrap());
+                        let _ = std::fs::write(&path, serde_json::to_string_pretty(&json!({"property": idc, "generated_from": v, "message": "watchdog: case ran > 120 s"})).unwrap());
                         eprintln!("INCONCLUSIVE property={} watchdog: a case ran longer than 120 s; saved {}", idc, path.display());
                         std::process::exit(2);
                     }
@@ -471,9 +481,7 @@ pub fn run<P: Prop + 'static>(p: Arc<P>, cfg: Config) -> i32 {
                         break;
                     }
                     hb[t].store(t0.elapsed().as_millis() as u64 + 1, Ordering::Relaxed);
-                    if i % 64 == 0 {
-                        *cur[t].lock().unwrap() = serde_json::to_value(case).ok();
-                    }
+                    *cur[t].lock().unwrap() = Some(json!({ "fixed_case_index": lo + i }));
                     let o = pp.check(case);
                     agg.add(pp.key(case), &o);
                     agg.fixed += 1;
@@ -550,12 +558,12 @@ pub fn run<P: Prop + 'static>(p: Arc<P>, cfg: Config) -> i32 {
                     }
                     let mut tree = strat.new_tree(&mut runner).expect("tape tree");
                     let tape_v = tree.current();
+                    // the watchdog must be able to name the very case that hangs (in the generator or in the check):
+                    // its tape is cheap to keep
+                    hb[t].store(t0.elapsed().as_millis() as u64 + 1, Ordering::Relaxed);
+                    *cur[t].lock().unwrap() = Some(json!({ "tape": tape_v }));
                     let mut tape = Tape::new(&tape_v);
                     let case = pp.generate(&mut tape);
-                    hb[t].store(t0.elapsed().as_millis() as u64 + 1, Ordering::Relaxed);
-                    if i % 16 == 0 {
-                        *cur[t].lock().unwrap() = serde_json::to_value(&case).ok();
-                    }
                     let mut o = pp.check(&case);
                     if t == 0 && i < dump {
                         println!("--- case {}: {:?} labels={:?} nt={}\n{}", i, o.verdict, o.labels, o.nontrivial, serde_json::to_string_pretty(&pp.sample(&case)).unwrap());
